@@ -4,6 +4,6 @@ LEVEL = "other"
 
 def check(rep, tier):
     from contracts import rules_scalar
-    rules_scalar.run(rep, tier, adjoint=True)
+    rep.run(rules_scalar.run, rep, tier, adjoint=True)
     from contracts import rules_exact
-    rules_exact.run(rep, tier, rules_exact.CLAUSE_PROPS["C04"])
+    rep.run(rules_exact.run, rep, tier, rules_exact.CLAUSE_PROPS["C04"])
